@@ -26,6 +26,29 @@ S64 = {'long', 'int64_t', 'long long', 'ssize_t', 'ptrdiff_t', 'intptr_t', 'long
 S32 = {'int', 'int32_t'}
 U32 = {'unsigned int', 'uint32_t', 'unsigned'}
 BOOL = {'bool', '_Bool'}
+U8 = {'unsigned char', 'uint8_t'}
+S8 = {'char', 'signed char', 'int8_t'}
+U16 = {'unsigned short', 'uint16_t'}
+S16 = {'short', 'int16_t'}
+
+
+def pointee(t):
+    """(element type, its size in bytes) of a pointer type, or (None, None)"""
+    t = norm_type(t)
+    if not t or not t.rstrip().endswith('*'):
+        return None, None
+    el = t.rstrip()[:-1].strip()
+    if el.endswith('*'):
+        return el, 8
+    if el in U8 or el in S8 or el == 'void':
+        return el, 1
+    if el in U16 or el in S16:
+        return el, 2
+    if el in S32 or el in U32:
+        return el, 4
+    if el in U64 or el in S64 or el == 'var':
+        return el, 8
+    return el, None
 
 
 def norm_type(t):
@@ -51,6 +74,16 @@ def wrap(v, t):
         return v % (1 << 32)
     if t in BOOL:
         return 1 if v else 0
+    if t in U8:
+        return v % 256
+    if t in S8:
+        v %= 256
+        return v - 256 if v >= 128 else v
+    if t in U16:
+        return v % 65536
+    if t in S16:
+        v %= 65536
+        return v - 65536 if v >= 32768 else v
     return v
 
 
@@ -71,8 +104,10 @@ def common(t1, t2):
 
 
 class CInt:
-    def __init__(self, P, fn, atoms=None, call=None, N=None, max_steps=2000, recurse=False, depth=0):
+    def __init__(self, P, fn, atoms=None, call=None, N=None, max_steps=2000, recurse=False, depth=0, mem=None, memw=None):
         self.recurse, self.depth = recurse, depth
+        self.mem = mem                       # mem(address, interpreter) -> value of *address for integer addresses
+        self.memw = memw                     # memw(address, value, width, interpreter): a store through an integer address
         self.P, self.fn = P, fn
         self.g = P.cfg(fn)
         self.N = N or util.Norm(P, fn, expand_locals=False, inline=False)
@@ -123,6 +158,10 @@ class CInt:
             return None
         return None
 
+    def ptr_type(self, e):
+        t = self.type_of(e)
+        return t if t and t.rstrip().endswith('*') else None
+
     # -- values ----------------------------------------------------------------------
     def atom_key(self, e):
         return ir.top_nocast(self.N.canon(e))
@@ -167,6 +206,18 @@ class CInt:
                     pass
             if key in self.atoms:
                 return self.atoms[key]
+            if self.mem is not None and k in ('un', 'idx'):
+                pe = e[2] if k == 'un' else e[1]
+                a = self.ev(pe)
+                if isinstance(a, int):
+                    el, sz = pointee(self.type_of(pe))
+                    if k == 'idx':
+                        if sz is None:
+                            raise NoEval('element size of %s unknown' % ir.fmt(pe))
+                        a += self.ev(e[2]) * sz
+                    self.mem_width = sz
+                    v = self.mem(a, self)
+                    return wrap(v, el) if isinstance(v, int) and el else v
             raise NoEval('no value for %s' % ir.fmt(key))
         if k == 'sizeof':
             key = ('sizeof', ir.fmt(e))
@@ -193,7 +244,7 @@ class CInt:
                 callee = self.P.fn(ir.callee_name(e), required=False)
                 if callee is not None and callee.get('body') is not None:
                     args = [self.ev(a) for a in e[2]]
-                    sub = CInt(self.P, callee, atoms=self.atoms, call=self.call, max_steps=self.max_steps, recurse=True, depth=self.depth + 1)
+                    sub = CInt(self.P, callee, atoms=self.atoms, call=self.call, max_steps=self.max_steps, recurse=True, depth=self.depth + 1, mem=self.mem, memw=self.memw)
                     sub.atoms = self.atoms           # shared memory
                     r = sub.run(args)
                     if r[0] == 'ret':
@@ -213,6 +264,19 @@ class CInt:
                 new = wrap(old + (1 if '++' in op else -1), self.type_of(e[2]))
                 self.store(e[2], new)
                 return new if op.startswith('pre') else old
+            if op == '&':
+                t = ir.top_nocast(e[2])
+                if t[0] == 'idx':
+                    b = self.ev(t[1])
+                    if isinstance(b, tuple) and b[0] == 'ep':
+                        return ('ep', b[1], b[2] + self.ev(t[2]))
+                    if isinstance(b, int):
+                        sz = pointee(self.type_of(t[1]))[1]
+                        if sz is not None:
+                            return b + self.ev(t[2]) * sz
+                if t[0] == 'un' and t[1] == '*':
+                    return self.ev(t[2])
+                raise NoEval('address of %s' % ir.fmt(t)[:40])
             v = self.ev(e[2])
             if op == '!':
                 return 0 if v else 1
@@ -244,6 +308,23 @@ class CInt:
                 raise NoEval('%s on a pointer value' % op)
             if op in ('<', '>', '<=', '>=', '==', '!='):
                 return int({'<': a < b, '>': a > b, '<=': a <= b, '>=': a >= b, '==': a == b, '!=': a != b}[op])
+            if op in ('+', '-'):
+                # integer addresses: pointer arithmetic counts elements
+                ta, tb = self.ptr_type(e[2]), self.ptr_type(e[3])
+                sa = pointee(ta)[1] if ta else None
+                sb = pointee(tb)[1] if tb else None
+                if ta and tb and op == '-':
+                    if sa and sa > 1:
+                        return (a - b) // sa
+                    return a - b
+                if ta and not tb:
+                    if sa is None:
+                        raise NoEval('element size of %s unknown' % ir.fmt(e[2]))
+                    return a + (b if op == '+' else -b) * sa
+                if tb and not ta and op == '+':
+                    if sb is None:
+                        raise NoEval('element size of %s unknown' % ir.fmt(e[3]))
+                    return b + a * sb
             t = self.type_of(e)
             if op == '+':
                 return wrap(a + b, t)
@@ -310,6 +391,21 @@ class CInt:
             return None
         return None
 
+    def _int_address(self, t):
+        pe = t[2] if t[0] == 'un' else t[1]
+        try:
+            a = self.ev(pe)
+        except NoEval:
+            return None
+        if not isinstance(a, int):
+            return None
+        el, sz = pointee(self.type_of(pe))
+        if t[0] == 'idx':
+            if sz is None:
+                return None
+            a += self.ev(t[2]) * sz
+        return a, el, sz
+
     def store(self, lhs, v):
         t = ir.top_nocast(lhs)
         ep = self.elem_lvalue(t) if t[0] in ('arrow', 'dot', 'idx', 'un') else None
@@ -320,6 +416,9 @@ class CInt:
             self.locals[t[2]] = v
         elif t[0] == 'param':
             self.params[t[2]] = v
+        elif self.memw is not None and ((t[0] == 'un' and t[1] == '*') or t[0] == 'idx') and self._int_address(t) is not None:
+            a, el, sz = self._int_address(t)
+            self.memw(a, wrap(v, el) if isinstance(v, int) and el else v, sz, self)
         else:
             key = self.atom_key(t)
             if key[0] == 'idx':
